@@ -229,6 +229,24 @@ pub fn run(ctx: &Ctx, st: &mut Stats) {
             st.eval(&C::af(K::DtDiv, x, f64::from_bits((dv.to_bits() as i64 + u) as u64)), both);
         }
     }
+    // results aimed at and just beyond the limit: limit + j units must never come back as a value
+    st.stratum("multipliers aimed at limit + j", true);
+    for &x in yms.iter().filter(|x| **x != 0) {
+        for j in -2i64..=14 {
+            let target = YM_LIM as f64 + j as f64;
+            st.eval(&C::af(K::YmMul, x, target / x as f64), both);
+            st.eval(&C::af(K::YmDiv, x, x as f64 / target), both);
+            st.eval(&C::af(K::YmMul, x, (target + 0.5) / x as f64), both);
+        }
+    }
+    for &x in dts.iter().filter(|x| **x != 0).chain(tms.iter().filter(|x| **x != 0)) {
+        for j in [-1i64, 0, 1, 2, 1000, 1_000_000, 60_000_000, 3_600_000_000, DAY_US - 1, DAY_US, DAY_US + 1, 2 * DAY_US] {
+            let target = DT_LIM as f64 + j as f64;
+            let is_time = (0..DAY_US).contains(&x) && tms.contains(&x);
+            st.eval(&C::af(if is_time { K::TmMul } else { K::DtMul }, x, target / x as f64), both);
+            st.eval(&C::af(if is_time { K::TmDiv } else { K::DtDiv }, x, x as f64 / target), both);
+        }
+    }
     // exact small-integer products / quotients
     let lim = ctx.tier.pick(40, 2_000, 20_000);
     ctx.par(st, "small integers: x*k and (x*k)/k", true, 1, lim, |st, k, _| {
